@@ -5,17 +5,26 @@ Inductive case :=
 | CValidate (regs : list reg) (d : desc)
             (an_consumes an_produces an_schemes an_ops : list bytes)   (* the real analyzer's Required* / OperationMethodPaths, sorted *)
             (err : option failure)                                      (* API.Validate() *)
+            (routed : list (nat * bool))                                (* validated: per declared operation, does the real router hold its route under base path + template *)
             (served : list (nat * bytes * nat)).                        (* per exercised operation: index, content type sent, outcome *)
 
 Definition failure_eqb (a b : failure) : bool :=
   Nat.eqb (f_section a) (f_section b) && list_eqb bytes_eqb (f_unspecified a) (f_unspecified b) &&
   list_eqb bytes_eqb (f_unregistered a) (f_unregistered b).
 
+(* does the model's route table hold the route of operation i *)
+Definition expected_routed (a : api) (d : desc) (i : nat) : bool :=
+  match nth_error (g_ops d) i with
+  | None => false
+  | Some o => route_added a d o
+  end.
+
 (* what the model expects of exercising operation i with a body of content type ct ([] = no body) *)
 Definition expected_outcome (a : api) (d : desc) (i : nat) (ct : bytes) : nat :=
   match nth_error (g_ops d) i with
   | None => 3
   | Some o =>
+    if negb (route_added a d o) then 4 else
     match ct with
     | _ :: _ => if mem_bytes ct (a_consumers a) then
                   match exercise a d o with Panicked PNoProducer _ => 2 | Panicked _ _ => 3 | Responded _ => 0 end
@@ -26,7 +35,7 @@ Definition expected_outcome (a : api) (d : desc) (i : nat) (ct : bytes) : nat :=
 
 Definition check_case (c : case) : N :=
   match c with
-  | CValidate regs d anc anp ans ano err served =>
+  | CValidate regs d anc anp ans ano err routed served =>
     let a := build_api regs in
     let m := validate a d in
     let analyzer_ok :=
@@ -34,8 +43,19 @@ Definition check_case (c : case) : N :=
       list_eqb bytes_eqb anp (sort_bytes (dedup (required_produces d))) &&
       list_eqb bytes_eqb ans (sort_bytes (dedup (required_schemes d))) &&
       list_eqb bytes_eqb ano (sort_bytes (dedup (required_ops d))) in
+    let routed_corr := forallb (fun s => Bool.eqb (snd s) (expected_routed a d (fst s))) routed in
+    (* every declared operation of a validated API was looked up, and has its route *)
+    let routed_prop := match err with
+                       | None => list_eqb Nat.eqb (map fst routed) (seq 0 (length (g_ops d))) && forallb snd routed
+                       | Some _ => true
+                       end in
     let served_corr := forallb (fun s => let '(i, ct, k) := s in Nat.eqb k (expected_outcome a d i ct)) served in
-    let served_prop := negb (simple_desc d) || forallb (fun s => served_ok (snd s)) served in
-    verdict (analyzer_ok && opt_eqb failure_eqb m err && served_corr)
-            (validate_prop a d err && served_prop)
+    (* a simple validated description: every declared operation was sent a request, and the handler ran *)
+    let served_prop := negb (simple_desc d) ||
+                       match err with
+                       | None => list_eqb Nat.eqb (map (fun s => fst (fst s)) served) (seq 0 (length (g_ops d)))
+                       | Some _ => true
+                       end && forallb (fun s => served_ok (snd s)) served in
+    verdict (analyzer_ok && opt_eqb failure_eqb m err && routed_corr && served_corr)
+            (validate_prop a d err && routed_prop && served_prop)
   end.
